@@ -19,6 +19,33 @@ package main
 //	hbCloseCond      heartbeatWorker: the condition of the `if` whose body calls `ctl.conn.Close()`
 //	hbPeriod         heartbeatWorker: the period argument of wait.Until
 //
+//
+// Order at the call sites that also check credentials (the chain runs first, the check reads what the chain returned):
+//
+//	registerWorkConn the top-level statements of (*Service).RegisterWorkConn (server/service.go):
+//	                   chain   `retContent, err := svr.pluginManager.NewWorkConn(content)`
+//	                   verify  `if err == nil { newMsg = &retContent.NewWorkConn … err = ….VerifyNewWorkConn(newMsg) }`: the
+//	                           variable handed to the verifier is assigned from `retContent` earlier in that block
+//	                   verify-original  such a block whose verifier argument is not a variable assigned from retContent
+//	                   refuse  `if err != nil { … return … }`
+//	                   effect  `return ctl.RegisterWorkConn(workConn)`
+//	                   stray-chain / stray-verify / stray-effect  any other statement with such a call inside
+//	loginCase        the statements of `case *msg.Login:` in (*Service).handleConnection: chain (`pluginManager.Login`),
+//	                   verify (`if err == nil { m = &retContent.Login; err = svr.RegisterControl(conn, m, internal) }`), stray-*
+//	registerControl  the top-level statements of (*Service).RegisterControl: verify (`if err := authVerifier.VerifyLogin(
+//	                   loginMsg); err != nil { return err }`, loginMsg being the function's parameter), create (NewControl(…
+//	                   loginMsg …)), add (ctlManager.Add), start (ctl.Start()), stray-verify
+//	handlePing       `verify` now also demands `inMsg = &retContent.Ping` ahead of `VerifyPing(inMsg)` (else verify-original)
+//	userConn         the top-level statements of (*BaseProxy).handleUserTCPConnection (server/proxy/proxy.go): chain
+//	                   (`_, err := rc.PluginManager.NewUserConn(content)`), refuse (`if err != nil { … return }`), workconn (an
+//	                   assignment from pxy.GetWorkConnFromPool), stray-chain
+//	gateCallers      every call of a plugin manager method (….pluginManager.X / ….PluginManager.X) and of a Verify… / RegisterControl
+//	                   in server/*.go and server/proxy/*.go (tests excluded) as "file:func:callee", with ":lit" appended when the
+//	                   call stands inside a function literal (the CloseProxy notifications are started as `go func() {…}()`; a
+//	                   gated chain is called by the goroutine of the occurrence itself, never through a closure handed to a
+//	                   helper that might share one run between several occurrences)
+//	userConnSpawn    how the accept loop hands a user connection on: the statement that calls handleUserTCPConnection
+//
 // Fails ("BROKEN TIE") when an anchor is missing.
 
 import (
@@ -107,6 +134,127 @@ func psfIsErrCmp(e ast.Expr, op token.Token) bool {
 	return ok1 && ok2 && x.Name == "err" && y.Name == "nil"
 }
 
+// `if err == nil { X = &retContent.F … err = <callSuffix>(… X …) }`: "verify" when the variable handed to the call (argument
+// number argIdx) is one that was assigned from retContent earlier in the block, "verify-original" when the call is there
+// but its argument is something else, "" when the block has no such call
+func psfVerifyBlock(v *ast.IfStmt, callSuffix string, argIdx int) string {
+	if v.Init != nil || v.Else != nil || !psfIsErrCmp(v.Cond, token.EQL) {
+		return ""
+	}
+	rewritten := map[string]bool{}
+	kind := ""
+	for _, s := range v.Body.List {
+		as, ok := s.(*ast.AssignStmt)
+		if !ok || len(as.Lhs) != 1 || len(as.Rhs) != 1 || as.Tok != token.ASSIGN {
+			if psfContainsCall(s, callSuffix) {
+				return "verify-original"
+			}
+			continue
+		}
+		if u, ok := as.Rhs[0].(*ast.UnaryExpr); ok && u.Op == token.AND {
+			if p := psfPath(u.X); strings.HasPrefix(p, "retContent.") {
+				if id, ok := as.Lhs[0].(*ast.Ident); ok {
+					rewritten[id.Name] = true
+				}
+			}
+			continue
+		}
+		if c, ok := as.Rhs[0].(*ast.CallExpr); ok && strings.HasSuffix(psfPath(c.Fun), callSuffix) && psfPath(as.Lhs[0]) == "err" {
+			if kind != "" {
+				return "verify-original" // a second call
+			}
+			kind = "verify-original"
+			if argIdx < len(c.Args) {
+				if id, ok := c.Args[argIdx].(*ast.Ident); ok && rewritten[id.Name] {
+					kind = "verify"
+				}
+			}
+		}
+	}
+	return kind
+}
+
+func psfChainAssign(st ast.Stmt, path string) bool {
+	v, ok := st.(*ast.AssignStmt)
+	if !ok || len(v.Rhs) != 1 || len(v.Lhs) != 2 || !psfCallIs(v.Rhs[0], path) {
+		return false
+	}
+	id, ok := v.Lhs[1].(*ast.Ident)
+	return ok && id.Name == "err"
+}
+
+// `if err != nil { … return … }` without else
+func psfRefuse(st ast.Stmt) bool {
+	v, ok := st.(*ast.IfStmt)
+	if !ok || v.Init != nil || v.Else != nil || !psfIsErrCmp(v.Cond, token.NEQ) || len(v.Body.List) == 0 {
+		return false
+	}
+	_, isRet := v.Body.List[len(v.Body.List)-1].(*ast.ReturnStmt)
+	return isRet
+}
+
+func psfStray(st ast.Stmt, kind string, pairs ...string) string {
+	if kind != "other" {
+		return kind
+	}
+	for i := 0; i+1 < len(pairs); i += 2 {
+		if psfContainsCall(st, pairs[i]) {
+			return pairs[i+1]
+		}
+	}
+	return kind
+}
+
+// calls of gated manager methods / verifiers per function, ":lit" when inside a function literal
+func psfGateCallers(file string, f *ast.File) []string {
+	var out []string
+	for _, d := range f.Decls {
+		fd, ok := d.(*ast.FuncDecl)
+		if !ok || fd.Body == nil {
+			continue
+		}
+		var walk func(n ast.Node, lit bool)
+		walk = func(n ast.Node, lit bool) {
+			ast.Inspect(n, func(x ast.Node) bool {
+				switch v := x.(type) {
+				case *ast.FuncLit:
+					if v != n {
+						walk(v.Body, true)
+						return false
+					}
+				case *ast.CallExpr:
+					p := psfPath(v.Fun)
+					parts := strings.Split(p, ".")
+					callee := parts[len(parts)-1]
+					hit := false
+					if len(parts) >= 2 {
+						recv := parts[len(parts)-2]
+						if (recv == "pluginManager" || recv == "PluginManager") && callee != "Register" {
+							hit = true
+						}
+					}
+					if strings.HasPrefix(callee, "Verify") && len(parts) >= 2 && strings.HasSuffix(strings.ToLower(parts[len(parts)-2]), "verifier") {
+						hit = true
+					}
+					if callee == "RegisterControl" {
+						hit = true
+					}
+					if hit {
+						e := file + ":" + fd.Name.Name + ":" + callee
+						if lit {
+							e += ":lit"
+						}
+						out = append(out, e)
+					}
+				}
+				return true
+			})
+		}
+		walk(fd.Body, false)
+	}
+	return out
+}
+
 func genPluginSiteFacts(repo, out string) error {
 	fset := token.NewFileSet()
 	dir := filepath.Join(repo, "server")
@@ -114,8 +262,8 @@ func genPluginSiteFacts(repo, out string) error {
 	if err != nil {
 		return err
 	}
-	var writers []string
-	var control *ast.File
+	var writers, gateCallers []string
+	var control, service, proxyGo *ast.File
 	for _, e := range ents {
 		name := e.Name()
 		if e.IsDir() || !strings.HasSuffix(name, ".go") || strings.HasSuffix(name, "_test.go") {
@@ -128,6 +276,10 @@ func genPluginSiteFacts(repo, out string) error {
 		if name == "control.go" {
 			control = f
 		}
+		if name == "service.go" {
+			service = f
+		}
+		gateCallers = append(gateCallers, psfGateCallers(name, f)...)
 		for _, d := range f.Decls {
 			fd, ok := d.(*ast.FuncDecl)
 			if !ok || fd.Body == nil {
@@ -141,6 +293,199 @@ func genPluginSiteFacts(repo, out string) error {
 	sort.Strings(writers)
 	if control == nil {
 		return fail("server/control.go not found")
+	}
+	if service == nil {
+		return fail("server/service.go not found")
+	}
+	pdir := filepath.Join(dir, "proxy")
+	pents, err := os.ReadDir(pdir)
+	if err != nil {
+		return err
+	}
+	for _, e := range pents {
+		name := e.Name()
+		if e.IsDir() || !strings.HasSuffix(name, ".go") || strings.HasSuffix(name, "_test.go") {
+			continue
+		}
+		f, err := parser.ParseFile(fset, filepath.Join(pdir, name), nil, 0)
+		if err != nil {
+			return err
+		}
+		if name == "proxy.go" {
+			proxyGo = f
+		}
+		gateCallers = append(gateCallers, psfGateCallers("proxy/"+name, f)...)
+	}
+	sort.Strings(gateCallers)
+	if proxyGo == nil {
+		return fail("server/proxy/proxy.go not found")
+	}
+
+	// (*Service).RegisterWorkConn
+	rw := sfMethod(service, "Service", "RegisterWorkConn")
+	if rw == nil || rw.Body == nil {
+		return fail("server/service.go: (*Service).RegisterWorkConn not found")
+	}
+	var workShape []string
+	for _, st := range rw.Body.List {
+		kind := "other"
+		switch v := st.(type) {
+		case *ast.AssignStmt:
+			if psfChainAssign(st, "svr.pluginManager.NewWorkConn") {
+				kind = "chain"
+			}
+		case *ast.IfStmt:
+			if k := psfVerifyBlock(v, "VerifyNewWorkConn", 0); k != "" {
+				kind = k
+			} else if psfRefuse(st) {
+				kind = "refuse"
+			}
+		case *ast.ReturnStmt:
+			if len(v.Results) == 1 && psfCallIs(v.Results[0], "ctl.RegisterWorkConn") {
+				kind = "effect"
+			}
+		}
+		if kind == "refuse" && (psfContainsCall(st, "VerifyNewWorkConn") || psfContainsCall(st, "pluginManager.NewWorkConn") || psfContainsCall(st, "ctl.RegisterWorkConn")) {
+			kind = "stray-in-refuse"
+		}
+		workShape = append(workShape, psfStray(st, kind, "pluginManager.NewWorkConn", "stray-chain", "VerifyNewWorkConn", "stray-verify", "ctl.RegisterWorkConn", "stray-effect"))
+	}
+
+	// (*Service).handleConnection, case *msg.Login
+	hc := sfMethod(service, "Service", "handleConnection")
+	if hc == nil || hc.Body == nil {
+		return fail("server/service.go: (*Service).handleConnection not found")
+	}
+	var loginShape []string
+	foundLogin := false
+	ast.Inspect(hc.Body, func(n ast.Node) bool {
+		cc, ok := n.(*ast.CaseClause)
+		if !ok || len(cc.List) != 1 {
+			return true
+		}
+		if st, ok := cc.List[0].(*ast.StarExpr); !ok || psfPath(st.X) != "msg.Login" {
+			return true
+		}
+		foundLogin = true
+		for _, st := range cc.Body {
+			kind := "other"
+			switch v := st.(type) {
+			case *ast.AssignStmt:
+				if psfChainAssign(st, "svr.pluginManager.Login") {
+					kind = "chain"
+				}
+			case *ast.IfStmt:
+				if k := psfVerifyBlock(v, "svr.RegisterControl", 1); k != "" {
+					kind = k
+				}
+			}
+			loginShape = append(loginShape, psfStray(st, kind, "pluginManager.Login", "stray-chain", "RegisterControl", "stray-verify"))
+		}
+		return false
+	})
+	if !foundLogin {
+		return fail("server/service.go: handleConnection: `case *msg.Login:` not found")
+	}
+
+	// (*Service).RegisterControl
+	rcF := sfMethod(service, "Service", "RegisterControl")
+	if rcF == nil || rcF.Body == nil || rcF.Type.Params == nil || len(rcF.Type.Params.List) < 2 || len(rcF.Type.Params.List[1].Names) != 1 {
+		return fail("server/service.go: (*Service).RegisterControl(conn, loginMsg, …) not found")
+	}
+	loginParam := rcF.Type.Params.List[1].Names[0].Name
+	var regShape []string
+	for _, st := range rcF.Body.List {
+		kind := "other"
+		switch v := st.(type) {
+		case *ast.IfStmt:
+			if as, ok := v.Init.(*ast.AssignStmt); ok && len(as.Rhs) == 1 {
+				if c, ok := as.Rhs[0].(*ast.CallExpr); ok && strings.HasSuffix(psfPath(c.Fun), "authVerifier.VerifyLogin") && len(c.Args) == 1 {
+					if id, ok := c.Args[0].(*ast.Ident); ok && id.Name == loginParam && psfIsErrCmp(v.Cond, token.NEQ) && len(v.Body.List) == 1 {
+						if _, ok := v.Body.List[0].(*ast.ReturnStmt); ok {
+							kind = "verify"
+						}
+					}
+				}
+			}
+			if kind == "other" && psfContainsCall(v, "ctlManager.Add") {
+				kind = "add"
+			}
+		case *ast.AssignStmt:
+			if len(v.Rhs) == 1 {
+				if c, ok := v.Rhs[0].(*ast.CallExpr); ok && psfPath(c.Fun) == "NewControl" {
+					kind = "create-other"
+					for _, a := range c.Args {
+						if id, ok := a.(*ast.Ident); ok && id.Name == loginParam {
+							kind = "create"
+						}
+					}
+				}
+			}
+		case *ast.ExprStmt:
+			if psfCallIs(v.X, "ctl.Start") {
+				kind = "start"
+			}
+		}
+		regShape = append(regShape, psfStray(st, kind, "VerifyLogin", "stray-verify"))
+	}
+
+	// (*BaseProxy).handleUserTCPConnection and the accept loop that starts it
+	hu := sfMethod(proxyGo, "BaseProxy", "handleUserTCPConnection")
+	if hu == nil || hu.Body == nil {
+		return fail("server/proxy/proxy.go: (*BaseProxy).handleUserTCPConnection not found")
+	}
+	var userShape []string
+	for _, st := range hu.Body.List {
+		kind := "other"
+		switch v := st.(type) {
+		case *ast.AssignStmt:
+			if len(v.Rhs) == 1 && len(v.Lhs) == 2 {
+				if c, ok := v.Rhs[0].(*ast.CallExpr); ok {
+					switch {
+					case strings.HasSuffix(psfPath(c.Fun), "PluginManager.NewUserConn"):
+						if id, ok := v.Lhs[1].(*ast.Ident); ok && id.Name == "err" {
+							kind = "chain"
+						}
+					case psfPath(c.Fun) == "pxy.GetWorkConnFromPool":
+						kind = "workconn"
+					}
+				}
+			}
+		case *ast.IfStmt:
+			if v.Init == nil && v.Else == nil && psfIsErrCmp(v.Cond, token.NEQ) && len(v.Body.List) > 0 {
+				if r, ok := v.Body.List[len(v.Body.List)-1].(*ast.ReturnStmt); ok && len(r.Results) == 0 {
+					kind = "refuse"
+				}
+			}
+		}
+		if kind == "refuse" && psfContainsCall(st, "GetWorkConnFromPool") {
+			kind = "stray-in-refuse"
+		}
+		userShape = append(userShape, psfStray(st, kind, "NewUserConn", "stray-chain", "GetWorkConnFromPool", "stray-workconn"))
+	}
+	userSpawn := ""
+	for _, d := range proxyGo.Decls {
+		fd, ok := d.(*ast.FuncDecl)
+		if !ok || fd.Body == nil || fd.Name.Name == "handleUserTCPConnection" {
+			continue
+		}
+		ast.Inspect(fd.Body, func(n ast.Node) bool {
+			st, ok := n.(ast.Stmt)
+			if !ok {
+				return true
+			}
+			switch v := st.(type) {
+			case *ast.GoStmt:
+				if strings.HasSuffix(psfPath(v.Call.Fun), "handleUserTCPConnection") {
+					userSpawn += fd.Name.Name + ": " + psfSrc(fset, v) + "; "
+				}
+			case *ast.ExprStmt:
+				if c, ok := v.X.(*ast.CallExpr); ok && strings.HasSuffix(psfPath(c.Fun), "handleUserTCPConnection") {
+					userSpawn += fd.Name.Name + ": " + psfSrc(fset, v) + "; "
+				}
+			}
+			return true
+		})
 	}
 	hp := sfMethod(control, "Control", "handlePing")
 	if hp == nil || hp.Body == nil {
@@ -160,11 +505,8 @@ func genPluginSiteFacts(repo, out string) error {
 		case *ast.IfStmt:
 			switch {
 			case v.Init == nil && v.Else == nil && psfIsErrCmp(v.Cond, token.EQL):
-				for _, s := range v.Body.List {
-					if as, ok := s.(*ast.AssignStmt); ok && len(as.Lhs) == 1 && len(as.Rhs) == 1 &&
-						psfPath(as.Lhs[0]) == "err" && as.Tok == token.ASSIGN && psfCallIs(as.Rhs[0], "ctl.authVerifier.VerifyPing") {
-						kind = "verify"
-					}
+				if k := psfVerifyBlock(v, "ctl.authVerifier.VerifyPing", 0); k != "" {
+					kind = k
 				}
 			case v.Init == nil && v.Else == nil && psfIsErrCmp(v.Cond, token.NEQ):
 				if n := len(v.Body.List); n > 0 {
@@ -179,11 +521,12 @@ func genPluginSiteFacts(repo, out string) error {
 				kind = "store"
 			}
 		}
-		if kind == "other" || kind == "refuse" || kind == "verify" {
+		if kind == "other" || kind == "refuse" || kind == "verify" || kind == "verify-original" {
 			if psfContainsCall(st, "lastPing.Store") {
 				kind = "nested-store"
 			}
 		}
+		kind = psfStray(st, kind, "pluginManager.Ping", "stray-chain", "VerifyPing", "stray-verify")
 		if kind == "other" {
 			if found, _ := psfPongLit(st); found {
 				kind = "pong"
@@ -234,6 +577,13 @@ func genPluginSiteFacts(repo, out string) error {
 	fmt.Fprintf(&b, "def hbOffCond : String := %s\n", psfLeanStr(hbOff))
 	fmt.Fprintf(&b, "def hbCloseCond : String := %s\n", psfLeanStr(hbClose))
 	fmt.Fprintf(&b, "def hbPeriod : String := %s\n", psfLeanStr(hbPeriod))
+	b.WriteString("\n")
+	strs("registerWorkConn", workShape)
+	strs("loginCase", loginShape)
+	strs("registerControl", regShape)
+	strs("userConn", userShape)
+	strs("gateCallers", gateCallers)
+	fmt.Fprintf(&b, "def userConnSpawn : String := %s\n", psfLeanStr(strings.TrimSpace(userSpawn)))
 	b.WriteString("\nend Frp.Gen.PluginSiteFacts\n")
 	return os.WriteFile(filepath.Join(out, "PluginSiteFacts.lean"), []byte(b.String()), 0o644)
 }
